@@ -16,14 +16,14 @@ use std::time::Duration;
 use time::OffsetDateTime;
 use tracing::{debug, error};
 
-#[cfg(test)]
+#[cfg(any(test, feature = "verif-hooks"))]
 use sparkle_unix_common::client_sync::UnixStream;
 
 pub enum RequestOptions {
     Main {
         config_path: &'static str,
     },
-    #[cfg(test)]
+    #[cfg(any(test, feature = "verif-hooks"))]
     Test {
         socket: Option<UnixStream>,
         users: Vec<EtcUser>,
@@ -79,7 +79,7 @@ impl RequestOptions {
                     }
                 }
             }
-            #[cfg(test)]
+            #[cfg(any(test, feature = "verif-hooks"))]
             RequestOptions::Test {
                 socket,
                 users,
